@@ -106,10 +106,7 @@ def hmStep (s : St) (ws : List String) : St × String :=
 
 def unitOf (us : Nat) (h : String) : Bytes := ((hexArg h) ++ List.replicate us 0).take us
 
-def bytesLe : Bytes → Bytes → Bool
-  | [], _ => true
-  | _ :: _, [] => false
-  | a :: as, b :: bs => if a < b then true else if a > b then false else bytesLe as bs
+def bytesLe : Bytes → Bytes → Bool := Arr.UList.bytesLe
 
 def listStr (xs : List Bytes) : String := "[" ++ joinWith "," (xs.map hexOut) ++ "]"
 def ulDump (l : Arr.UList Bytes) : String := s!" s={l.start} a={l.anum} n={l.num} {listStr l.window}"
